@@ -17,6 +17,7 @@ func main() {
 		vlib.Group{Name: "domain", Gen: genDomain},
 		vlib.Group{Name: "dst", Gen: genDst},
 		vlib.Group{Name: "repr", Gen: genRepr},
+		vlib.Group{Name: "shift", Gen: genShift},
 		vlib.Group{Name: "cca", Gen: genCCA},
 		vlib.Group{Name: "mahalanobis", Gen: genMahalanobis},
 		vlib.Group{Name: "spatial", Gen: genSpatial},
